@@ -555,7 +555,8 @@ fn exec_graph_step(w: &World, st: &[String]) -> Option<String> {
         }),
         "gdebytes" => guarded(|| {
             // raw (possibly mutated) bytes given as hex: never panic; Ok => the graph must be sane
-            let bytes: Vec<u8> = (0..st[2].len() / 2).map(|i| u8::from_str_radix(&st[2][2 * i..2 * i + 2], 16).unwrap()).collect();
+            let hex: &str = st.get(2).map(|x| x.as_str()).unwrap_or(""); // an empty input has no third token
+            let bytes: Vec<u8> = (0..hex.len() / 2).map(|i| u8::from_str_radix(&hex[2 * i..2 * i + 2], 16).unwrap()).collect();
             let r: Result<Gr, String> = match st[1].as_str() {
                 "json" => serde_json::from_slice::<Gr>(&bytes).map_err(|e| e.to_string()),
                 _ => serde_cbor::from_slice::<Gr>(&bytes).map_err(|e| e.to_string()),
@@ -748,14 +749,35 @@ fn run_search(w: &World, st: &[String]) -> String {
             }
         }};
     }
+    // the builder calls are made in an order chosen per step (a pure function of the step text)
+    let variant: u32 = st.iter().map(|t| t.bytes().map(|b| b as u32).sum::<u32>()).sum::<u32>() % 4;
+    let wrong_key: u64 = 999_983;
     macro_rules! cfg3 {
         ($b:expr) => {{
             let mut b = $b;
-            if let Some(ref t) = target {
-                b = b.target(t);
+            match variant {
+                0 | 3 => {
+                    if let Some(ref t) = target {
+                        b = b.target(t);
+                    }
+                    let b = with_method!(b, meth, &mut ff, &mut fe);
+                    terminal!(b)
+                }
+                1 => {
+                    let mut b = with_method!(b, meth, &mut ff, &mut fe);
+                    if let Some(ref t) = target {
+                        b = b.target(t);
+                    }
+                    terminal!(b)
+                }
+                _ => {
+                    if let Some(ref t) = target {
+                        b = b.target(&wrong_key).target(t);
+                    }
+                    let b = with_method!(b, meth, &mut ff, &mut fe);
+                    terminal!(b)
+                }
             }
-            let b = with_method!(b, meth, &mut ff, &mut fe);
-            terminal!(b)
         }};
     }
     macro_rules! ord {
@@ -772,8 +794,15 @@ fn run_search(w: &World, st: &[String]) -> String {
     let res = match algo {
         "bfs" => cfg3!(root.bfs()),
         "dfs" => cfg3!(root.dfs()),
-        "pmin" => cfg3!(root.pfs().min()),
-        "pmax" => cfg3!(root.pfs().max()),
+        "pmin" => match variant {
+            0 => cfg3!(root.pfs()), // Min is the default priority
+            1 => cfg3!(root.pfs().max().min()),
+            _ => cfg3!(root.pfs().min()),
+        },
+        "pmax" => match variant {
+            1 => cfg3!(root.pfs().min().max()),
+            _ => cfg3!(root.pfs().max()),
+        },
         "pre" => ord!(root.order().pre()),
         "post" => ord!(root.order().post()),
         _ => "bad-algo".to_string(),
